@@ -130,6 +130,7 @@ def run_vh(work, args, out_name, timeout, threads="2"):
     return out, rc
 
 
+STATEFUL_OPS = ("kop", "sop", "lop", "view")
 RE_FAIL = re.compile(r'^<<"FAIL", (\d+), (-?\d+), "([^"]*)", \{([^}]*)\}(?:, (.*))?>>$')
 RE_DONE = re.compile(r'^<<"DONE", (\d+), (\d+)>>$')
 
@@ -201,7 +202,14 @@ def validate(work, trace_spec, trace_files, nproc, timeout):
             if m:
                 idx = int(m.group(1))
                 clauses = set(c.strip().strip('"') for c in m.group(4).split(",") if c.strip())
-                failures.append((json.loads(sh[idx - 1]), clauses, m.group(5) or ""))
+                ev = json.loads(sh[idx - 1])
+                if stateful and ev.get("op") in STATEFUL_OPS:
+                    # a stateful event is replayable only with its history: keep everything from its `begin`
+                    b = idx - 1
+                    while b > 0 and '"op":"begin"' not in sh[b]:
+                        b -= 1
+                    ev["_history"] = [json.loads(x) for x in sh[b:idx - 1]]
+                failures.append((ev, clauses, m.group(5) or ""))
                 continue
             m = RE_DONE.match(ln)
             if m:
